@@ -189,6 +189,17 @@ func c01Family(c *core.C) {
 			d := ast.Date(gen.Pick(r, gen.BoundDate))
 			b.Checks = append(b.Checks, ast.Check{Queries: []ast.Rule{{Head: ast.P("query"), Body: []ast.Pred{ast.P("time", ast.Var("t"))}, Exprs: []ast.Expr{{ast.OV(ast.Var("t")), ast.OV(d), ast.OB(int(ast.BLessOrEqual))}}}}})
 		}
+		if c.Idx%4 == 1 && nBlocks <= 3 {
+			// blocks far larger than any sample token (4 KiB, 16 KiB, 64 KiB boundaries, hundreds of facts):
+			// every byte of them, and the key announced after them, is covered by the signature
+			if r.Intn(2) == 0 {
+				l := gen.Pick(r, []int{4000, 4061, 4100, 5000, 16384, 20000, 65536, 70000})
+				b.Facts = append(b.Facts, ast.P("padding", ast.Str(gen.BigString(l, r.Intn(5)))))
+			} else {
+				gen.BigContent(r, r.Intn(3), false, false).AddTo(&b)
+			}
+			c.Count("big_blocks", 1)
+		}
 		return b
 	}
 	if !f.randomHistory(c, 3+r.Intn(4), keyID, mk) {
